@@ -15,7 +15,4 @@ Theorem fourier2_refuted :
 Proof. exact fourier2_refuted_lemma. Qed.
 Print Assumptions fourier2_refuted.
 
-(* ... and cannot be constructed in two dimensions (the code reads shape[2]) *)
-Theorem fourier2_2d_raises : forall vol n0 n1, fourier2_weights vol [n0; n1] = None.
-Proof. exact fourier2_2d_raises_lemma. Qed.
-Print Assumptions fourier2_2d_raises.
+(* constructibility in two dimensions: fourier2_2d_constructs in C13_props_f2d.v (refutation: C13_refuted_f2d.v) *)
